@@ -450,8 +450,11 @@ class C11(Prop):
                         ok = close(got, want) if not (has_plate or multi) else (got == want or abs(got - want) <= 1e-4 * (1 + abs(want)))
                         if want == float("-inf") and got < -600:
                             ok = True
-                        if (has_plate or multi) and deriv <= 1e-9:
-                            ok = True  # stencil noise near zero
+                        if has_plate or multi:
+                            # stencil noise near zero: rounding in the four root values, amplified by 1/h
+                            thr = max(1e-9, 64 * 2.3e-16 * max(abs(v) for v in f.values()) / h)
+                            if deriv <= thr and (got == float("-inf") or got <= math.log(10 * thr)):
+                                ok = True
                     else:
                         want = deriv
                         ok = close(got, want) if not (has_plate or multi) else abs(got - want) <= 1e-4 * (1 + abs(want))
